@@ -657,6 +657,16 @@ func (nc *nodeCase) oracleAfterEvent(op string, r procResult) {
 			if bad != "" && !nc.slashSeen[fmt.Sprint(a, b)] {
 				nc.slashSeen[fmt.Sprint(a, b)] = true
 				what := bad
+				// F35 is specific: the earlier vote sits on a branch the checkpoint tree has
+				// pruned (forgotten). A slashable pair whose two targets are BOTH still in the
+				// tree is another matter and keeps the plain signature.
+				inTree := map[string]bool{}
+				for _, t := range tree {
+					inTree[nc.nm.name(t.Hash)] = true
+				}
+				if bad == "surround" && !nc.restarted && !(inTree[a.tgt] && inTree[b.tgt]) {
+					what += ":other-vote-pruned"
+				}
 				if nc.restarted {
 					what += "-after-restart"
 				}
@@ -844,6 +854,27 @@ func (nc *nodeCase) randomSups(name string) []supSpec {
 	rng := nc.c.Rng
 	var out []supSpec
 	anc := nc.ancestorCheckpoints(name)
+	if len(anc) > 0 && nc.nm.blocks[name].Height%nc.env.E == 0 && rng.Intn(3) == 0 {
+		// a campaign carried by the block itself: one or two links (direct parent checkpoint
+		// and / or an older one, in either order), each signed by a random subset of the
+		// validators -- several links with partial and full majorities in ONE header
+		srcs := []string{anc[0]}
+		if len(anc) > 1 && rng.Intn(2) == 0 {
+			srcs = append(srcs, anc[1+rng.Intn(len(anc)-1)])
+			if rng.Intn(2) == 0 {
+				srcs[0], srcs[1] = srcs[1], srcs[0]
+			}
+		}
+		for _, src := range srcs {
+			perm := rng.Perm(len(nc.env.keys))
+			for _, v := range perm[:1+rng.Intn(len(perm))] {
+				out = append(out, supSpec{order: v, valid: rng.Intn(10) != 0, src: src, srcHeight: nc.nm.blocks[src].Height})
+			}
+		}
+		nc.c.Count("deliveries-with-sup")
+		nc.c.Count("deliveries-with-sup-campaign")
+		return out
+	}
 	n := 1 + rng.Intn(3)
 	for i := 0; i < n; i++ {
 		sp := supSpec{order: rng.Intn(len(nc.env.keys) + 1), valid: rng.Intn(4) != 0}
